@@ -18,6 +18,12 @@ class Error:
     name: str
     description: str
 
+    def __reduce__(self) -> tuple[type["Error"], tuple[str, str]]:
+        # The default pickling of a class with __slots__ restores the state with
+        # setattr(), which a frozen dataclass rejects. Failures that contain an Error
+        # are sent back from the worker processes in --parallel mode.
+        return (Error, (self.name, self.description))
+
 
 class ErrorRegistry:
     errors: dict[str, Error]
